@@ -532,6 +532,24 @@ class PyMap(Val):
     def m_copy(self, cx):
         return PyMap(self.dom, self.val, self.valty, self.cls), None
 
+    @staticmethod
+    def empty(valty=None, cls=None):
+        valty = valty or TV
+        return PyMap(z3.K(V, z3.BoolVal(False)), FreshConst(z3.ArraySort(V, valty.sort()), "emptymap_val"), valty, cls)
+
+    def m_update(self, cx, other):
+        """dict.update(other dict): other's entries win"""
+        if not isinstance(other, PyMap) or other.valty.sort() != self.valty.sort():
+            raise Unsupported("dict.update argument")
+        x = z3.Const("x!mu", V)
+        nd = FreshConst(z3.ArraySort(V, BoolS), "upd_dom")
+        nv = FreshConst(z3.ArraySort(V, self.valty.sort()), "upd_val")
+        cx.assume(z3.ForAll([x], z3.Select(nd, x) == z3.Or(z3.Select(self.dom, x), z3.Select(other.dom, x)),
+                            patterns=[z3.Select(nd, x)]))
+        cx.assume(z3.ForAll([x], z3.Select(nv, x) == z3.If(z3.Select(other.dom, x), z3.Select(other.val, x),
+                                                            z3.Select(self.val, x)), patterns=[z3.Select(nv, x)]))
+        return PyNone(), PyMap(nd, nv, self.valty, self.cls)
+
     def m_values(self, cx):
         """dict.values(): the values along an arbitrary duplicate-free enumeration of the keys"""
         ke = enum_of_pred(lambda x: z3.Select(self.dom, x), "mapk")
